@@ -944,6 +944,14 @@ func (s *Store) FUn(op Op, a *Term) *Term {
 	return s.mk(&Term{Op: op, S: so, Args: []*Term{a}})
 }
 
+// FOfBits reinterprets a 64-bit pattern as float64.
+func (s *Store) FOfBits(a *Term) *Term {
+	if a.IsConst() {
+		return s.FConst(a.Val)
+	}
+	return s.mk(&Term{Op: OFOfBits, S: FPSort, Args: []*Term{a}})
+}
+
 func (s *Store) IntToF(a *Term, signed bool) *Term {
 	if a.IsConst() {
 		if signed {
